@@ -201,6 +201,19 @@ def worker_env(tmp):
     env['XV_TMP'] = tmp
     env['XV_REPO'] = REPO
     env['TMPDIR'] = tmp
+    if os.environ.get('XV_COVER'):
+        # tools/reach.py: every python process started below (workers, CLI and pytest subprocesses) records the
+        # repository lines it reaches; a sitecustomize on the path starts the recorder
+        site = os.path.join(tmp, 'reach_site')
+        os.makedirs(site, exist_ok=True)
+        with open(os.path.join(site, 'sitecustomize.py'), 'w') as f:
+            f.write('import os, sys\n'
+                    'sys.path.insert(0, %r)\n'
+                    'from xv.worker import start_reach_monitor\n'
+                    'start_reach_monitor(%r, os.environ["XV_COVER"], "p%%d" %% os.getpid())\n' % (
+                        VERIF, os.path.realpath(os.path.join(REPO, 'src')) + os.sep))
+        env['PYTHONPATH'] = os.pathsep.join([site, env['PYTHONPATH']])
+        env['XV_COVER_SITE'] = '1'
     env.pop('PYTEST_ADDOPTS', None)
     env.pop('XDOCTEST_OPTIONS', None)
     env.pop('XDOCTEST_VERBOSE', None)
